@@ -72,6 +72,21 @@ def programs_for(types, instances, prefix):
                 src = "pub fn %s(a: %s, b: %s) { %s }" % (name, a.path, b.path, body)
                 out.append((name, src, {"lhs": a.name, "op": op, "rhs": b.name,
                                         "expect": "reject" if res is None else "accept", "result": res}))
+                # borrowed operand forms exist exactly for the declared derivations
+                if op in ("*", "/") and not (a.kind == "amount" and b.kind == "amount"):
+                    der = instances.get((op, a.name, b.name))
+                    for la, rb, tag in (("&a", "&b", "rr"), ("&a", "b", "ro"), ("a", "&b", "or")):
+                        name = "%s_%d" % (prefix, n)
+                        n += 1
+                        if der is None:
+                            body = "let _ = %s %s %s;" % (la, op, rb)
+                        else:
+                            body = "let _r: %s = %s %s %s;" % (der.path, la, op, rb)
+                        src = "pub fn %s(a: %s, b: %s) { %s }" % (name, a.path, b.path, body)
+                        out.append((name, src, {"lhs": ("&" if la[0] == "&" else "") + a.name, "op": op,
+                                                "rhs": ("&" if rb[0] == "&" else "") + b.name,
+                                                "expect": "reject" if der is None else "accept",
+                                                "result": None if der is None else der.path}))
     return out
 
 
@@ -229,7 +244,7 @@ def run(tier):
     coverage = {
         "evaluations": total_programs + singles,
         "distinct_nontrivial": nontrivial,
-        "rule": "enumerates every ordered pair of the 14 catalogue quantity types and AmountT x {+,-,*,/,==,<} (1350 programs) in both back-ends and the 5x5x6 programs of the astronomical crate, and generates random derivation graphs (2-5 base types, 1-4 derived types incl. squares and AmountT dividends, bystander types without reference unit / with a single unit) with all their pairs; the rustc verdict per program (an error whose primary span lies in the program) must equal the verdict predicted from the independent derivation tables resp. the generated graph, accepted programs carry the predicted result type as an ascription. Non-trivial: predicted rejection, or acceptance with a derived result type; programs are pairwise distinct",
+        "rule": "enumerates every ordered pair of the 14 catalogue quantity types and AmountT x {+,-,*,/,==,<} (1350 programs) plus the three borrowed operand forms of * and / (&a op &b, &a op b, a op &b; accepted exactly for declared derivations) in both back-ends and the 5x5x6 programs of the astronomical crate, and generates random derivation graphs (2-5 base types, 1-4 derived types incl. squares and AmountT dividends, bystander types without reference unit / with a single unit) with all their pairs; the rustc verdict per program (an error whose primary span lies in the program) must equal the verdict predicted from the independent derivation tables resp. the generated graph, accepted programs carry the predicted result type as an ascription. Non-trivial: predicted rejection, or acceptance with a derived result type; programs are pairwise distinct",
         "samples": samples,
         "exhaustive": True,
         "programs": total_programs,
